@@ -9,6 +9,7 @@ from ..env import gfapy, GfapyError
 from ..runner import Part, Violation
 
 ID = "C14"
+ATHERIS = ['gfa1', 'gfa2']  # parts also driven by libFuzzer in the thorough tier (vf/runner.py: all_parts)
 RULE = ("GFA1 graphs (and GFA2 graphs for chain detection) built from planted structure: runs of segments joined "
         "end to end with every orientation pattern, stored in either complement form, closed into cycles or not, "
         "plus extra links producing branching and dead-end junctions, self-links, hairpins on chain ends, parallel "
